@@ -15,6 +15,7 @@ RULE = ("Complete enumeration (thorough) of: operation in {connect no-auth / sig
         "a seed-chosen 1/8 slice plus every k=last case; Hypothesis adds off-grid timeouts. Oracle: the call raises AdbTimeoutError or TcpTimeoutException within "
         "4*(max(R,0)+max(T_eff,0)) + max(total,0) + 1 s of virtual time after the stall began (x2 for pull, which also awaits its closing CLSE), never returns normally unless the data kept "
         "flowing (trickle) and then with the model's result; Watchdog = non-termination; every transport call's timeout argument <= each given timeout. "
+        "Part tcp-eof (real loopback TCP, both transports): the device half-closes the connection after its k-th packet (k in 1,2,3,4,6) during connect+{shell, stat, pull, push} with read_timeout_s=0.5, transport_timeout_s=0.25: every call ends (error, or the model's result) -- a call that is still running after 60 s, or a case that needs more than 12 s, is a violation. "
         "Non-trivial: stall at k >= 1. Distinct = (op, k, kind, timeouts, api).")
 ASSUMPTIONS = ["virtual clock: data-carrying calls cost 1 us, empty reads 1 ms, a silent read costs its timeout, foreign packets 50 ms each", "auth_timeout_s=None (documented 'wait for ever') excluded"]
 
@@ -193,6 +194,9 @@ def offgrid(draw):
 
 
 def replay(part, case):
+    if part == "tcp-eof":
+        from .. import sockcheck
+        return sockcheck.check_eof_case(case)[0]
     if part == "timeout-args":
         return _targs(case)[0]
     return check_case(case)[0]
@@ -259,6 +263,9 @@ def run(tier, seed):
                                         yield {"op": opname, "api": api, "k": 1, "kind": "endless", "T": T, "R": R, "total": 0, "delta": 0.0}
     col.merge(harness.enumeration_part("grid", endless_items, check_case))
     col.merge(harness.hypothesis_part("grid", offgrid(), check_case, 1500 if quick else 40000, seed, shrink=not quick))
+    # the end-of-stream stall on a real socket (the in-memory transport models EOF as empty reads; TcpTransport / TcpTransportAsync have their own code for it)
+    from .. import sockcheck
+    col.merge(harness.enumeration_part("tcp-eof", lambda sh, n: [c for i, c in enumerate(sockcheck.eof_cases()) if i % n == sh], sockcheck.check_eof_case))
     return harness.finish(ID, tier, seed, LEVEL, col, RULE, ASSUMPTIONS, t0, exhaustive=not quick,
                           extra={"grid_complete": not quick, "ops": {k: list(unstalled_counts(k, "sync")) for k in BASES}})
 
